@@ -133,7 +133,13 @@ fn run_case(keys: &str, msgs: &[(Spec, Built)], orc: &mut Oracle, rec: &mut Reco
 }
 
 fn build_all(specs: &[Spec]) -> Option<Vec<(Spec, Built)>> {
-    specs.iter().map(|s| bmp::build(s).map(|b| (s.clone(), b))).collect()
+    // every second case gets wire-level variation the tokens do not show (timestamps 0 / small / large per message,
+    // every Peer Down reason code): the choice is a function of the case, so a replay builds the same bytes
+    let salt = bmp::flavour_of(specs);
+    bmp::set_flavour(if salt & 2 == 0 { salt } else { 0 });
+    let r = specs.iter().map(|s| bmp::build(s).map(|b| (s.clone(), b))).collect();
+    bmp::set_flavour(0);
+    r
 }
 
 fn parse_line(line: &str) -> Option<Vec<Spec>> {
